@@ -1189,6 +1189,16 @@ def starAtDoc (cd : Bool) : E → Bool
   | .and q r | .or q r => starAtDoc cd q || starAtDoc cd r
   | _ => false
 
+/-- does the expression use the attribute axis or an axis that looks upwards / sideways (these are
+the only places where the evaluator consults the attribute lists or the parent search)? -/
+def usesAttrOrUp : E → Bool
+  | .step p ax _ q1 q2 =>
+    usesAttrOrUp p || usesAttrOrUp q1 || usesAttrOrUp q2 ||
+      !(ax == .child || ax == .descendant || ax == .descOrSelf || ax == .self)
+  | .exist p | .countGt p _ | .not p => usesAttrOrUp p
+  | .and q r | .or q r => usesAttrOrUp q || usesAttrOrUp r
+  | _ => false
+
 end Sel
 
 /-- the attribute nodes seen by the evaluator under a schema: those of `attrNodes`, a defaulted
@@ -1199,5 +1209,29 @@ def typedAttrs (s : Schema) (a : Ann) (attrs : List (String × String)) : List (
 /-- schema-aware evaluation: parser bound to the schema proxy; `dummyDoc` = the tree was passed as
 an element (not as a document) -/
 def Sel.Cfg.typed (s : Schema) (dummyDoc : Bool) : Sel.Cfg Ann := ⟨dummyDoc, dummyDoc, typedAttrs s⟩
+
+/-! ## a predicate form that READS the typed value: `//*[. = 'lit']`
+
+Not part of the path language `E` (it does not erase): the general comparison atomizes the node.
+`cmpKey` is the string the comparison sees for a string-family typed value or an untyped node; for
+other typed values the comparison with a string literal raises XPTY0004 (`none`). -/
+
+def cmpKey (valid : SType → String → Bool) (s : Schema) (a : Ann) (attrs : List (String × String))
+    (kids : Forest Ann) : Option String :=
+  match elemTypedValue valid s a attrs kids with
+  | .ok [v] =>
+    if v.cls == .untypedAtomic || v.cls == .string || v.cls == .normalizedString || v.cls == .token
+    then some v.val else none
+  | _ => none
+
+/-- the elements selected by `//*[. = 'lit']` (indices), `none` = the comparison raises on some element -/
+def selectValEq (valid : SType → String → Bool) (s : Schema) (lit : String) : Nat → Forest Ann → Option (List Nat)
+  | _, .nil => some []
+  | start, .leaf _ _ r => selectValEq valid s lit (start + 1) r
+  | start, .elem a _ ats _ kids rest =>
+    match cmpKey valid s a ats kids, selectValEq valid s lit (start + 1 + ats.length) kids,
+          selectValEq valid s lit (start + 1 + ats.length + Sel.fsize kids) rest with
+    | some k, some l1, some l2 => some ((if k == lit then [start] else []) ++ l1 ++ l2)
+    | _, _, _ => none
 
 end EPV.Xsd
